@@ -98,6 +98,11 @@ func libSender(c *e2eCase) ([]byte, error) {
 
 // libValidate: receiver side up to the MIC verdict. ok=false with err!=nil means "rejected by decoding/validation error".
 func libValidate(c *e2eCase, air []byte) (*lorawan.PHYPayload, bool, error) {
+	return libValidateDir(c, air, ref.IsUplinkMType(c.F.MType))
+}
+
+// libValidateDir: the receiver validates with the function for the direction it expects (asUplink).
+func libValidateDir(c *e2eCase, air []byte, asUplink bool) (*lorawan.PHYPayload, bool, error) {
 	var q lorawan.PHYPayload
 	if err := q.UnmarshalBinary(append([]byte{}, air...)); err != nil {
 		return nil, false, err
@@ -110,7 +115,7 @@ func libValidate(c *e2eCase, air []byte) (*lorawan.PHYPayload, bool, error) {
 	m.FHDR.FCnt = c.F.FCnt&0xffff0000 | m.FHDR.FCnt&0xffff
 	var valid bool
 	var err error
-	if ref.IsUplinkMType(c.F.MType) {
+	if asUplink {
 		valid, err = q.ValidateUplinkDataMIC(ver(c.V11), c.ConfFCnt, c.TxDR, c.TxCh, gen.LibKey(toKey(c.FNwk)), gen.LibKey(toKey(c.SNwk)))
 	} else {
 		valid, err = q.ValidateDownlinkDataMIC(ver(c.V11), c.ConfFCnt, gen.LibKey(toKey(c.SNwk)))
@@ -232,6 +237,25 @@ func checkE2E(c e2eCase, allBits bool) evid.Outcome {
 			return o
 		}
 	}
+	// direction mismatch: a receiver that expects the other direction (same keys and counters; with one network key as in
+	// 1.0) must reject the frame whenever the specification MIC for that direction differs from the received one
+	{
+		d := c
+		d.FNwk = c.SNwk // one key for both directions: the hardest case
+		air2, err := libSender(&d)
+		if err == nil {
+			g, _ := ref.DecodeFrame(air2, false)
+			p := d.micParams()
+			p.Uplink = !up
+			p.DevAddr, p.ACK, p.FCnt = g.DevAddr, g.ACK, d.F.FCnt
+			exp := ref.DataMIC(p, air2[:len(air2)-4]) == g.MIC
+			_, valid, verr := libValidateDir(&d, air2, !up)
+			if verr == nil && valid != exp {
+				return evid.Fail("a receiver that validates the %s frame %x as a %s (same key %x, same counters) answers valid=%v, but the specification MIC for that direction %s", map[bool]string{true: "uplink", false: "downlink"}[up], air2, map[bool]string{true: "downlink", false: "uplink"}[up], []byte(d.SNwk), valid,
+					map[bool]string{true: "equals the received MIC", false: "differs from the received MIC"}[exp])
+			}
+		}
+	}
 	// single-parameter mismatches on the receiver side
 	for _, p := range c.Params {
 		d := c
@@ -277,7 +301,7 @@ func TestProp(t *testing.T) {
 	r := evid.Begin(t, "C05")
 	defer r.Finish()
 	run = r
-	rule := "rapid: valid data frames (commands in FOpts, commands on port 0, or application bytes; both directions; <= 255 bytes) x MAC version x four distinct random keys x counters. History: sender EncryptFRMPayload -> [1.1] EncryptFOpts -> Set*DataMIC -> MarshalBinary | receiver UnmarshalBinary -> set 32-bit FCnt -> Validate*DataMIC -> [1.1] DecryptFOpts / [1.0] DecodeFOptsToMACCommands -> DecryptFRMPayload. Oracles: (a) receiver obtains exactly the original commands and payload; (b) bytes on the air == an independent sender built from the wire model, keystream and CMAC models; (c) single-bit flips of the serialised frame and single-parameter mismatches (keys, FCnt +-2^16, ConfFCnt, txDR, txCh, version): validation must fail whenever the specification MIC of what the receiver sees differs from the received MIC. Known finding K6 (flips of MHDR bits 2..4) is excluded by position and counted. Non-trivial: 1.1 frame with FOpts and FRMPayload."
+	rule := "rapid: valid data frames (commands in FOpts, commands on port 0, or application bytes; both directions; <= 255 bytes) x MAC version x four distinct random keys x counters. History: sender EncryptFRMPayload -> [1.1] EncryptFOpts -> Set*DataMIC -> MarshalBinary | receiver UnmarshalBinary -> set 32-bit FCnt -> Validate*DataMIC -> [1.1] DecryptFOpts / [1.0] DecodeFOptsToMACCommands -> DecryptFRMPayload. Oracles: (a) receiver obtains exactly the original commands and payload; (b) bytes on the air == an independent sender built from the wire model, keystream and CMAC models; (c) single-bit flips of the serialised frame and single-parameter mismatches (keys, FCnt +-2^16, ConfFCnt, txDR, txCh, version, and the receiver validating for the opposite direction with one shared key): validation must fail whenever the specification MIC of what the receiver sees differs from the received MIC. Known finding K6 (flips of MHDR bits 2..4) is excluded by position and counted. Non-trivial: 1.1 frame with FOpts and FRMPayload."
 	evid.Rapid(r, t, "exchange-sampled-flips", rule+" Flip positions: the 8 MHDR bits + 24..64 drawn positions per frame.", 40000, 1200000, genCase, checkCase)
 	evid.Rapid(r, t, "exchange-all-flips", rule+" Flip positions: every bit of the frame.", 2400, 100000, genCase, func(c e2eCase) evid.Outcome { return checkE2E(c, true) })
 }
